@@ -64,6 +64,10 @@ func runC18(rc *RC) {
 		addr := fmt.Sprintf("room%d@conf.example.net", r)
 		if withNick {
 			addr += "/nick" + fmt.Sprint(r)
+			if ch.Chance("workload", 1, 4) {
+				// nicknames are resourceparts: spaces, characters that need escaping, non-ASCII text
+				addr += []string{` the 2nd`, `&co`, `<b>`, `"q'`, "ü€", `/x`}[ch.Int("workload", 6)]
+			}
 		}
 		seq := [][]string{{"join"}, {"join", "leave"}, {"join", "leave", "rejoin"}, {"join", "leave", "rejoin", "leave"}, {"join", "rejoin"},
 			// the room removes the occupant on its own (kick, ban, room destroyed) while no call is in flight
@@ -135,7 +139,7 @@ func runC18(rc *RC) {
 					}
 					acquire()
 					answers[c.room] = append(answers[c.room], roomAns{"kick", rc.S.Steps, rc.S.Now(), c})
-					e.PeerWrite(fmt.Sprintf(`<presence from="%s" type="unavailable"><x xmlns="http://jabber.org/protocol/muc#user"><item affiliation="none" role="none"><reason>bye</reason></item><status code="110"/><status code="307"/></x></presence>`, c.room))
+					e.PeerWrite(fmt.Sprintf(`<presence from="%s" type="unavailable"><x xmlns="http://jabber.org/protocol/muc#user"><item affiliation="none" role="none"><reason>bye</reason></item><status code="110"/><status code="307"/></x></presence>`, escText(c.room)))
 					release()
 					rc.Fire("kick")
 					simrt.Sleep(time.Duration(ch.Range("workload", 1, 30)) * 10 * time.Millisecond)
@@ -226,22 +230,22 @@ func runC18(rc *RC) {
 							c.ansAt, c.ansStep = rc.S.Now(), rc.S.Steps
 							answers[to] = append(answers[to], roomAns{"unavail", rc.S.Steps, rc.S.Now(), c})
 							pre, post := extras()
-							e.PeerWrite(fmt.Sprintf(`<presence from="%s" type="unavailable">%s<x xmlns="http://jabber.org/protocol/muc#user"><item affiliation="member" role="none"/><status code="110"/></x>%s</presence>`, to, pre, post))
+							e.PeerWrite(fmt.Sprintf(`<presence from="%s" type="unavailable">%s<x xmlns="http://jabber.org/protocol/muc#user"><item affiliation="member" role="none"/><status code="110"/></x>%s</presence>`, escText(to), pre, post))
 							c.answered = "unavail"
 						} else {
 							for k := 0; k < c.others; k++ {
-								e.PeerWrite(fmt.Sprintf(`<presence from="%s/other%d"><x xmlns="http://jabber.org/protocol/muc#user"><item affiliation="member" role="participant"/></x></presence>`, bare, k))
+								e.PeerWrite(fmt.Sprintf(`<presence from="%s/other%d"><x xmlns="http://jabber.org/protocol/muc#user"><item affiliation="member" role="participant"/></x></presence>`, escText(bare), k))
 							}
 							c.ansAt, c.ansStep = rc.S.Now(), rc.S.Steps
 							answers[to] = append(answers[to], roomAns{"self", rc.S.Steps, rc.S.Now(), c})
 							pre, post := extras()
-							e.PeerWrite(fmt.Sprintf(`<presence from="%s">%s<x xmlns="http://jabber.org/protocol/muc#user"><item affiliation="member" role="participant"/><status code="110"/></x>%s</presence>`, to, pre, post))
+							e.PeerWrite(fmt.Sprintf(`<presence from="%s">%s<x xmlns="http://jabber.org/protocol/muc#user"><item affiliation="member" role="participant"/><status code="110"/></x>%s</presence>`, escText(to), pre, post))
 							c.answered = "self"
 						}
 					case 1:
 						if c.split > 0 {
 							// the caller may give up while the serve loop is in the middle of handing the reply over
-							e.PeerWrite(fmt.Sprintf(`<presence from="%s" id="%s" type="error"><error type="auth">`, to, id))
+							e.PeerWrite(fmt.Sprintf(`<presence from="%s" id="%s" type="error"><error type="auth">`, escText(to), escText(id)))
 							simrt.Sleep(c.split)
 							rc.Fire("error-reply-in-pieces")
 						}
@@ -250,7 +254,7 @@ func runC18(rc *RC) {
 						if c.split > 0 {
 							e.PeerWrite(`<forbidden xmlns="urn:ietf:params:xml:ns:xmpp-stanzas"/></error></presence>`)
 						} else {
-							e.PeerWrite(fmt.Sprintf(`<presence from="%s" id="%s" type="error"><error type="auth"><forbidden xmlns="urn:ietf:params:xml:ns:xmpp-stanzas"/></error></presence>`, to, id))
+							e.PeerWrite(fmt.Sprintf(`<presence from="%s" id="%s" type="error"><error type="auth"><forbidden xmlns="urn:ietf:params:xml:ns:xmpp-stanzas"/></error></presence>`, escText(to), escText(id)))
 						}
 						c.answered = "error"
 					case 3:
@@ -259,9 +263,9 @@ func runC18(rc *RC) {
 						answers[to] = append(answers[to], roomAns{"error", rc.S.Steps, rc.S.Now(), c})
 						body := []string{``, `<x xmlns="http://jabber.org/protocol/muc"/>`, `refused`, `<error/>`}[ch.Int("workload", 4)]
 						if body == "" {
-							e.PeerWrite(fmt.Sprintf(`<presence from="%s" id="%s" type="error"/>`, to, id))
+							e.PeerWrite(fmt.Sprintf(`<presence from="%s" id="%s" type="error"/>`, escText(to), escText(id)))
 						} else {
-							e.PeerWrite(fmt.Sprintf(`<presence from="%s" id="%s" type="error">%s</presence>`, to, id, body))
+							e.PeerWrite(fmt.Sprintf(`<presence from="%s" id="%s" type="error">%s</presence>`, escText(to), escText(id), body))
 						}
 						rc.Fire("error-reply-without-payload")
 						c.answered = "error-odd"
@@ -334,7 +338,7 @@ func runC18(rc *RC) {
 	cbBefore := len(callbacks)
 	upd := rc.Spawn("room-updates", func() {
 		for _, pl := range plans {
-			pw(fmt.Sprintf(`<presence from="%s"><x xmlns="http://jabber.org/protocol/muc#user"><item affiliation="member" role="moderator"/></x></presence>`, pl[0].room))
+			pw(fmt.Sprintf(`<presence from="%s"><x xmlns="http://jabber.org/protocol/muc#user"><item affiliation="member" role="moderator"/></x></presence>`, escText(pl[0].room)))
 		}
 	})
 	rc.S.Run(func() bool { return upd.Done() }, 3000, 5*time.Second)
